@@ -10,3 +10,595 @@ Proof.
     replace ((97 <=? 55 + d) && (55 + d <=? 102)) with false by lia.
     replace ((65 <=? 55 + d) && (55 + d <=? 70)) with true by lia. f_equal. lia.
 Qed.
+
+(* ---------- UTF-8 layer ---------- *)
+Lemma scalar_EncodeRune cp : scalar cp = true -> EncodeRune cp = encodeWTF8Rune cp.
+Proof.
+  unfold scalar, EncodeRune, is_surrogate, MaxRune. intros H.
+  replace ((cp <? 0) || (1114111 <? cp) || ((55296 <=? cp) && (cp <=? 57343))) with false by lia.
+  reflexivity.
+Qed.
+
+Lemma utf8_enc_dec cp rest :
+  scalar cp = true ->
+  utf8_decode (EncodeRune cp ++ rest) = option_map (cons cp) (utf8_decode rest).
+Proof.
+  intros H. rewrite (scalar_EncodeRune _ H). unfold scalar in H.
+  unfold encodeWTF8Rune, MaxRune.
+  destruct (cp <? 0) eqn:E0; [lia|].
+  destruct (cp <=? 127) eqn:E1.
+  { cbn [app utf8_decode]. replace ((0 <=? cp) && (cp <=? 127)) with true by lia. reflexivity. }
+  destruct (cp <=? 2047) eqn:E2.
+  { cbn [app utf8_decode].
+    replace ((0 <=? 192 + cp / 64) && (192 + cp / 64 <=? 127)) with false by lia.
+    replace ((192 <=? 192 + cp / 64) && (192 + cp / 64 <=? 223)) with true by lia.
+    unfold cont_byte.
+    replace ((128 <=? 128 + cp mod 64) && (128 + cp mod 64 <=? 191)) with true by lia.
+    replace ((192 + cp / 64 - 192) * 64 + (128 + cp mod 64 - 128)) with cp by lia.
+    replace (128 <=? cp) with true by lia. reflexivity. }
+  destruct (1114111 <? cp) eqn:E3; [lia|].
+  destruct (cp <=? 65535) eqn:E4.
+  { cbn [app utf8_decode].
+    replace ((0 <=? 224 + cp / 4096) && (224 + cp / 4096 <=? 127)) with false by lia.
+    replace ((192 <=? 224 + cp / 4096) && (224 + cp / 4096 <=? 223)) with false by lia.
+    replace ((224 <=? 224 + cp / 4096) && (224 + cp / 4096 <=? 239)) with true by lia.
+    unfold cont_byte.
+    replace ((128 <=? 128 + (cp / 64) mod 64) && (128 + (cp / 64) mod 64 <=? 191)) with true by lia.
+    replace ((128 <=? 128 + cp mod 64) && (128 + cp mod 64 <=? 191)) with true by lia.
+    replace ((224 + cp / 4096 - 224) * 4096 + (128 + (cp / 64) mod 64 - 128) * 64 + (128 + cp mod 64 - 128)) with cp by lia.
+    replace (2048 <=? cp) with true by lia. unfold scalar. rewrite H. reflexivity. }
+  cbn [app utf8_decode].
+  replace ((0 <=? 240 + cp / 262144) && (240 + cp / 262144 <=? 127)) with false by lia.
+  replace ((192 <=? 240 + cp / 262144) && (240 + cp / 262144 <=? 223)) with false by lia.
+  replace ((224 <=? 240 + cp / 262144) && (240 + cp / 262144 <=? 239)) with false by lia.
+  replace ((240 <=? 240 + cp / 262144) && (240 + cp / 262144 <=? 247)) with true by lia.
+  unfold cont_byte.
+  replace ((128 <=? 128 + (cp / 4096) mod 64) && (128 + (cp / 4096) mod 64 <=? 191)) with true by lia.
+  replace ((128 <=? 128 + (cp / 64) mod 64) && (128 + (cp / 64) mod 64 <=? 191)) with true by lia.
+  replace ((128 <=? 128 + cp mod 64) && (128 + cp mod 64 <=? 191)) with true by lia.
+  replace ((240 + cp / 262144 - 240) * 262144 + (128 + (cp / 4096) mod 64 - 128) * 4096
+           + (128 + (cp / 64) mod 64 - 128) * 64 + (128 + cp mod 64 - 128)) with cp by lia.
+  replace (65536 <=? cp) with true by lia. unfold scalar. rewrite H. reflexivity.
+Qed.
+
+Lemma utf8_roundtrip cps :
+  forallb scalar cps = true -> utf8_decode (to_bytes cps) = Some cps.
+Proof.
+  induction cps as [|c r IH]; intros H; [reflexivity|].
+  cbn [forallb] in H. apply andb_true_iff in H as [H1 H2].
+  unfold to_bytes. cbn [flat_map]. rewrite utf8_enc_dec by exact H1.
+  fold (to_bytes r). rewrite IH by exact H2. reflexivity.
+Qed.
+
+(* ---------- String Value layer ---------- *)
+Definition inv (s : st) (rest : list Z) : Prop :=
+  s = Normal \/ (s = Zero /\ next_is_digit rest = false) \/ (s = Dollar /\ next_is 123 rest = false).
+
+Definition pend (s : st) (x : Z) : Prop :=
+  s = Normal \/ (s = Zero /\ is_digit x = false) \/ (s = Dollar /\ x <> 123).
+
+Lemma pend_step k s x : pend s x -> step k s x = normal k x.
+Proof.
+  intros [->|[[-> H]|[-> H]]]; cbn [step]; [reflexivity|rewrite H; reflexivity|].
+  destruct (x =? 123) eqn:E; [lia|reflexivity].
+Qed.
+
+Lemma inv_pend s c rest : inv s (c :: rest) -> pend s c.
+Proof.
+  intros [->|[[-> H]|[-> H]]]; [left; reflexivity| |].
+  - right; left; split; [reflexivity|exact H].
+  - right; right; split; [reflexivity|]. cbn [next_is] in H. lia.
+Qed.
+
+Lemma inv_pend_any s rest x : inv s rest -> is_digit x = false -> x <> 123 -> pend s x.
+Proof.
+  intros [->|[[-> H]|[-> H]]] Hd Hx; [left; reflexivity| |].
+  - right; left; split; [reflexivity|exact Hd].
+  - right; right; split; [reflexivity|exact Hx].
+Qed.
+
+Lemma run_cons k s c r :
+  run k s (c :: r) = match step k s c with
+                     | None => None
+                     | Some (emit, s') => option_map (app emit) (run k s' r)
+                     end.
+Proof. reflexivity. Qed.
+
+Lemma run_bs k s rest r : inv s rest -> run k s (92 :: r) = run k Esc r.
+Proof.
+  intros H. rewrite run_cons, (pend_step k s 92).
+  - unfold normal. destruct k; cbn; destruct (run _ Esc r); reflexivity.
+  - eapply inv_pend_any; [exact H|reflexivity|lia].
+Qed.
+
+Lemma hexc_range d : 0 <= d < 16 -> (48 <= hexc d <= 57) \/ (65 <= hexc d <= 70).
+Proof. intros H. unfold hexc. destruct (d <? 10) eqn:E; lia. Qed.
+
+Lemma step_U0_hex k d : 0 <= d < 16 -> step k U0 (hexc d) = Some ([], U4 3 d).
+Proof.
+  intros H. cbn [step]. destruct (hexc_range d H); (destruct (hexc d =? 123) eqn:E; [lia|]);
+    rewrite hexc_hexval by exact H; reflexivity.
+Qed.
+Lemma step_U4_hex k n v d : 0 <= d < 16 ->
+  step k (U4 n v) (hexc d) = match n with
+                             | S (S k') => Some ([], U4 (S k') (v * 16 + d))
+                             | _ => Some ([v * 16 + d], Normal)
+                             end.
+Proof. intros H. cbn [step]. rewrite hexc_hexval by exact H. reflexivity. Qed.
+Lemma step_Hex1_hex k d : 0 <= d < 16 -> step k Hex1 (hexc d) = Some ([], Hex2 d).
+Proof. intros H. cbn [step]. rewrite hexc_hexval by exact H. reflexivity. Qed.
+Lemma step_Hex2_hex k v d : 0 <= d < 16 -> step k (Hex2 v) (hexc d) = Some ([v * 16 + d], Normal).
+Proof. intros H. cbn [step]. rewrite hexc_hexval by exact H. reflexivity. Qed.
+Lemma step_UB0_hex k d : 0 <= d < 16 -> step k UB0 (hexc d) = Some ([], UB d).
+Proof. intros H. cbn [step]. rewrite hexc_hexval by exact H. reflexivity. Qed.
+Lemma step_UB_hex k v d : 0 <= d < 16 -> v * 16 + d <= 1114111 ->
+  step k (UB v) (hexc d) = Some ([], UB (v * 16 + d)).
+Proof.
+  intros H Hv. cbn [step]. destruct (hexc_range d H); (destruct (hexc d =? 125) eqn:E; [lia|]);
+    rewrite hexc_hexval by exact H; (destruct (1114111 <? v * 16 + d) eqn:E2; [lia|reflexivity]).
+Qed.
+
+Lemma option_map_app_nil {A} (o : option (list A)) : option_map (app []) o = o.
+Proof. destruct o; reflexivity. Qed.
+Lemma option_map_app_one {A} (x : A) (o : option (list A)) : option_map (app [x]) o = option_map (cons x) o.
+Proof. destruct o; reflexivity. Qed.
+
+Lemma run_esc_u4 k s rest c tail :
+  0 <= c <= 65535 -> inv s rest ->
+  run k s (esc_u4 c ++ tail) = option_map (cons c) (run k Normal tail).
+Proof.
+  intros Hc Hs. unfold esc_u4. cbn [app].
+  rewrite (run_bs k s rest _ Hs).
+  rewrite run_cons. replace (step k Esc 117) with (Some (@nil Z, U0)) by reflexivity.
+  rewrite option_map_app_nil.
+  rewrite run_cons, step_U0_hex by lia. rewrite option_map_app_nil.
+  rewrite run_cons, step_U4_hex by lia. rewrite option_map_app_nil.
+  rewrite run_cons, step_U4_hex by lia. rewrite option_map_app_nil.
+  rewrite run_cons, step_U4_hex by lia. rewrite option_map_app_one.
+  f_equal. f_equal. lia.
+Qed.
+
+Lemma run_esc_x2 k s rest c tail :
+  0 <= c <= 255 -> inv s rest ->
+  run k s (esc_x2 c ++ tail) = option_map (cons c) (run k Normal tail).
+Proof.
+  intros Hc Hs. unfold esc_x2. cbn [app].
+  rewrite (run_bs k s rest _ Hs).
+  rewrite run_cons. replace (step k Esc 120) with (Some (@nil Z, Hex1)) by reflexivity.
+  rewrite option_map_app_nil.
+  rewrite run_cons, step_Hex1_hex by lia. rewrite option_map_app_nil.
+  rewrite run_cons, step_Hex2_hex by lia. rewrite option_map_app_one.
+  f_equal. f_equal. lia.
+Qed.
+
+Lemma units_pair c c2 :
+  is_high c = true -> is_low c2 = true -> utf16_units (combine_add c c2) = [c; c2].
+Proof.
+  unfold is_high, is_low, utf16_units, combine_add. intros H1 H2.
+  destruct (_ <=? 65535) eqn:E; [lia|]. f_equal; [lia|f_equal; lia].
+Qed.
+
+Lemma combine_range c c2 :
+  is_high c = true -> is_low c2 = true -> 65536 <= combine_add c c2 <= 1114111.
+Proof. unfold is_high, is_low, combine_add. lia. Qed.
+
+Lemma run_esc_ubrace k s rest r tail :
+  65536 <= r <= 1114111 -> inv s rest ->
+  run k s (esc_ubrace r ++ tail) = option_map (app (utf16_units r)) (run k Normal tail).
+Proof.
+  intros Hr Hs. unfold esc_ubrace, hexX. cbn [app].
+  rewrite (run_bs k s rest _ Hs).
+  rewrite run_cons. replace (step k Esc 117) with (Some (@nil Z, U0)) by reflexivity.
+  rewrite option_map_app_nil.
+  rewrite run_cons. replace (step k U0 123) with (Some (@nil Z, UB0)) by reflexivity.
+  rewrite option_map_app_nil.
+  destruct (r <? 1048576) eqn:E; cbn [app].
+  - rewrite run_cons, step_UB0_hex by lia. rewrite option_map_app_nil.
+    do 4 (rewrite run_cons, step_UB_hex by lia; rewrite option_map_app_nil).
+    rewrite run_cons. cbn [step]. replace (125 =? 125) with true by reflexivity.
+    do 2 f_equal. f_equal. lia.
+  - rewrite run_cons, step_UB0_hex by lia. rewrite option_map_app_nil.
+    do 5 (rewrite run_cons, step_UB_hex by lia; rewrite option_map_app_nil).
+    rewrite run_cons. cbn [step]. replace (125 =? 125) with true by reflexivity.
+    do 2 f_equal. f_equal. lia.
+Qed.
+
+Lemma units_small c : c <= 65535 -> utf16_units c = [c].
+Proof. intros H. unfold utf16_units. destruct (c <=? 65535) eqn:E; [reflexivity|lia]. Qed.
+
+Lemma normal_raw k c :
+  c <> quote_of k -> c <> 92 -> c <> 13 -> (k = KTemplate -> c <> 36) -> (k <> KTemplate -> c <> 10) ->
+  normal k c = Some (utf16_units c, Normal).
+Proof.
+  intros Hq Hb Hcr Hd Hn. unfold normal.
+  destruct (c =? quote_of k) eqn:E1; [lia|]. destruct (c =? 92) eqn:E2; [lia|].
+  destruct k.
+  - destruct (c =? 10) eqn:E3; [exfalso; apply Hn; [discriminate|lia]|]. destruct (c =? 13) eqn:E4; [lia|]. reflexivity.
+  - destruct (c =? 10) eqn:E3; [exfalso; apply Hn; [discriminate|lia]|]. destruct (c =? 13) eqn:E4; [lia|]. reflexivity.
+  - destruct (c =? 13) eqn:E4; [lia|]. destruct (c =? 36) eqn:E5; [exfalso; apply Hd; [reflexivity|lia]|]. reflexivity.
+Qed.
+
+Ltac fin_esc k Hs v :=
+  cbn [app]; rewrite (run_bs k _ _ _ Hs); rewrite run_cons;
+  match goal with |- context [step k Esc ?x] => change (step k Esc x) with (Some ([v], Normal)) end;
+  apply option_map_app_one.
+
+Ltac fin_raw k Hp :=
+  cbn [app]; rewrite run_cons, (pend_step k _ _ Hp), normal_raw;
+  [rewrite units_small by lia; apply option_map_app_one | first [cbn [quote_of]; lia | destruct k; cbn [quote_of]; lia] | lia | lia
+  | intros; subst; try lia; try discriminate | intros; try lia; try congruence ].
+
+Lemma simple_chunk_run k cfg prev c rest s tail :
+  0 <= c <= 65535 -> is_high c = false -> inv s (c :: rest) ->
+  exists s', inv s' rest /\
+    run k s (simple_chunk cfg (quote_of k) prev c rest ++ tail) = option_map (cons c) (run k s' tail).
+Proof.
+  intros Hc Hh Hs. pose proof (inv_pend _ _ _ Hs) as Hp.
+  unfold simple_chunk.
+  destruct (c =? 0) eqn:E0.
+  { apply Z.eqb_eq in E0; subst c. destruct (next_is_digit rest) eqn:Ed.
+    - exists Normal; split; [left; reflexivity|].
+      change [92;120;48;48] with (esc_x2 0). apply run_esc_x2 with (rest := 0 :: rest); [lia|exact Hs].
+    - exists Zero. split; [right; left; auto|].
+      cbn [app]; rewrite (run_bs k _ _ _ Hs); rewrite run_cons.
+      change (step k Esc 48) with (Some ([0], Zero)). apply option_map_app_one. }
+  destruct (c =? 7) eqn:E1.
+  { apply Z.eqb_eq in E1; subst c. exists Normal; split; [left; reflexivity|].
+    change [92;120;48;55] with (esc_x2 7). apply run_esc_x2 with (rest := 7 :: rest); [lia|exact Hs]. }
+  destruct (c =? 8) eqn:E2.
+  { apply Z.eqb_eq in E2; subst c. exists Normal; split; [left; reflexivity|]. fin_esc k Hs 8. }
+  destruct (c =? 12) eqn:E3.
+  { apply Z.eqb_eq in E3; subst c. exists Normal; split; [left; reflexivity|]. fin_esc k Hs 12. }
+  destruct (c =? 10) eqn:E4.
+  { apply Z.eqb_eq in E4; subst c. exists Normal; split; [left; reflexivity|].
+    destruct k; cbn [quote_of Z.eqb Pos.eqb].
+    - fin_esc KSingle Hs 10.
+    - fin_esc KDouble Hs 10.
+    - cbn [app]. rewrite run_cons, (pend_step _ _ _ Hp). cbn. destruct (run KTemplate Normal tail); reflexivity. }
+  destruct (c =? 13) eqn:E5.
+  { apply Z.eqb_eq in E5; subst c. exists Normal; split; [left; reflexivity|]. fin_esc k Hs 13. }
+  destruct (c =? 11) eqn:E6.
+  { apply Z.eqb_eq in E6; subst c. exists Normal; split; [left; reflexivity|]. fin_esc k Hs 11. }
+  destruct (c =? 27) eqn:E7.
+  { apply Z.eqb_eq in E7; subst c. exists Normal; split; [left; reflexivity|].
+    change [92;120;49;66] with (esc_x2 27). apply run_esc_x2 with (rest := 27 :: rest); [lia|exact Hs]. }
+  destruct (c =? 92) eqn:E8.
+  { apply Z.eqb_eq in E8; subst c. exists Normal; split; [left; reflexivity|]. fin_esc k Hs 92. }
+  destruct (c =? 47) eqn:E9.
+  { apply Z.eqb_eq in E9; subst c. exists Normal; split; [left; reflexivity|].
+    destruct (script_guard cfg && (prev =? 60) && matches_script rest).
+    - fin_esc k Hs 47.
+    - fin_raw k Hp. }
+  destruct (c =? 39) eqn:E10.
+  { apply Z.eqb_eq in E10; subst c. exists Normal; split; [left; reflexivity|].
+    destruct k; cbn [quote_of Z.eqb Pos.eqb].
+    - fin_esc KSingle Hs 39.
+    - fin_raw KDouble Hp.
+    - fin_raw KTemplate Hp. }
+  destruct (c =? 34) eqn:E11.
+  { apply Z.eqb_eq in E11; subst c. exists Normal; split; [left; reflexivity|].
+    destruct k; cbn [quote_of Z.eqb Pos.eqb].
+    - fin_raw KSingle Hp.
+    - fin_esc KDouble Hs 34.
+    - fin_raw KTemplate Hp. }
+  destruct (c =? 96) eqn:E12.
+  { apply Z.eqb_eq in E12; subst c. exists Normal; split; [left; reflexivity|].
+    destruct k; cbn [quote_of Z.eqb Pos.eqb].
+    - fin_raw KSingle Hp.
+    - fin_raw KDouble Hp.
+    - fin_esc KTemplate Hs 96. }
+  destruct (c =? 36) eqn:E13.
+  { apply Z.eqb_eq in E13; subst c.
+    destruct k; cbn [quote_of Z.eqb Pos.eqb andb].
+    - exists Normal; split; [left; reflexivity|]. fin_raw KSingle Hp.
+    - exists Normal; split; [left; reflexivity|]. fin_raw KDouble Hp.
+    - destruct (next_is 123 rest) eqn:En.
+      + exists Normal; split; [left; reflexivity|]. fin_esc KTemplate Hs 36.
+      + exists Dollar; split; [right; right; auto|].
+        cbn [app]. rewrite run_cons, (pend_step _ _ _ Hp). cbn. destruct (run KTemplate Dollar tail); reflexivity. }
+  destruct (c =? 8232) eqn:E14.
+  { apply Z.eqb_eq in E14; subst c. exists Normal; split; [left; reflexivity|].
+    change [92; 117; 50; 48; 50; 56] with (esc_u4 8232). apply run_esc_u4 with (rest := 8232 :: rest); [lia|exact Hs]. }
+  destruct (c =? 8233) eqn:E15.
+  { apply Z.eqb_eq in E15; subst c. exists Normal; split; [left; reflexivity|].
+    change [92; 117; 50; 48; 50; 57] with (esc_u4 8233). apply run_esc_u4 with (rest := 8233 :: rest); [lia|exact Hs]. }
+  destruct (c =? 65279) eqn:E16.
+  { apply Z.eqb_eq in E16; subst c. exists Normal; split; [left; reflexivity|].
+    change [92; 117; 70; 69; 70; 70] with (esc_u4 65279). apply run_esc_u4 with (rest := 65279 :: rest); [lia|exact Hs]. }
+  exists Normal; split; [left; reflexivity|].
+  destruct (c <=? 126) eqn:E17.
+  { fin_raw k Hp. }
+  destruct (is_low c || (ascii_only cfg && (255 <? c))) eqn:E18.
+  { apply run_esc_u4 with (rest := c :: rest); [lia|exact Hs]. }
+  destruct (ascii_only cfg) eqn:E19.
+  { apply run_esc_x2 with (rest := c :: rest); [|exact Hs].
+    cbn [andb] in E18. apply orb_false_iff in E18 as [_ E18]. lia. }
+  fin_raw k Hp.
+Qed.
+
+Lemma quote_pend k s : inv s [] -> pend s (quote_of k).
+Proof. intros H. eapply inv_pend_any; [exact H|destruct k; reflexivity|destruct k; cbn; lia]. Qed.
+
+Lemma run_close k s : inv s [] -> run k s [quote_of k] = Some [].
+Proof.
+  intros H. rewrite run_cons, (pend_step k _ _ (quote_pend k s H)).
+  unfold normal. rewrite Z.eqb_refl. reflexivity.
+Qed.
+
+Lemma inv_normal rest : inv Normal rest. Proof. left; reflexivity. Qed.
+
+Lemma pu_run k cfg wrap : forall n text prev sl i s,
+  (length text <= n)%nat -> Forall (fun c => 0 <= c <= 65535) text -> inv s text ->
+  run k s (pu cfg (quote_of k) wrap prev sl i text ++ [quote_of k]) = Some text.
+Proof.
+  induction n as [|n IH]; intros text prev sl i s Hlen Hu Hs.
+  { destruct text; [|cbn in Hlen; lia]. cbn [pu app]. apply run_close. exact Hs. }
+  destruct text as [|c rest]; [cbn [pu app]; apply run_close; exact Hs|].
+  cbn [length] in Hlen. inversion Hu as [|? ? Hc Hu']; subst.
+  cbn [pu].
+  set (dowrap := wrap && (line_limit cfg <=? sl + i)).
+  set (sl1 := if dowrap then sl - line_limit cfg else sl).
+  rewrite <- app_assoc.
+  assert (Hw : exists s1, inv s1 (c :: rest) /\
+     forall X, run k s ((if dowrap then [92; 10] else []) ++ X) = run k s1 X).
+  { destruct dowrap.
+    - exists Normal. split; [apply inv_normal|]. intros X. cbn [app].
+      rewrite (run_bs k s _ _ Hs). rewrite run_cons.
+      change (step k Esc 10) with (Some (@nil Z, Normal)). apply option_map_app_nil.
+    - exists s. split; [exact Hs|]. reflexivity. }
+  destruct Hw as [s1 [Hs1 Hw]]. rewrite Hw. clear Hw.
+  destruct (is_high c) eqn:Hh.
+  - destruct rest as [|c2 rest'].
+    + rewrite (run_esc_u4 k s1 [c]) by (auto; lia). cbn [app]. rewrite run_close by apply inv_normal. reflexivity.
+    + inversion Hu' as [|? ? Hc2 Hu'']; subst.
+      destruct (is_low c2) eqn:Hl.
+      * rewrite <- app_assoc.
+        assert (Hp : run k s1 (pair_chunk cfg c c2 ++ pu cfg (quote_of k) wrap c2 sl1 (i + 1 + 1) rest' ++ [quote_of k])
+                     = option_map (app [c; c2]) (run k Normal (pu cfg (quote_of k) wrap c2 sl1 (i + 1 + 1) rest' ++ [quote_of k]))).
+        { unfold pair_chunk. pose proof (combine_range c c2 Hh Hl) as Hr.
+          destruct (ascii_only cfg).
+          - destruct (uni_esc cfg).
+            + rewrite (run_esc_ubrace k s1 (c :: c2 :: rest')) by (auto; lia).
+              rewrite (units_pair c c2 Hh Hl). reflexivity.
+            + rewrite <- app_assoc.
+              rewrite (run_esc_u4 k s1 (c :: c2 :: rest')) by (auto; lia).
+              rewrite (run_esc_u4 k Normal []) by (try apply inv_normal; lia).
+              destruct (run k Normal _); reflexivity.
+          - cbn [app]. rewrite run_cons, (pend_step k s1 (combine_add c c2)).
+            + rewrite normal_raw.
+              * rewrite (units_pair c c2 Hh Hl). reflexivity.
+              * destruct k; cbn [quote_of]; lia.
+              * lia.
+              * lia.
+              * intros; lia.
+              * intros; lia.
+            + eapply inv_pend_any; [exact Hs1| |lia].
+              unfold is_digit. lia. }
+        rewrite Hp. rewrite IH; [reflexivity| |exact Hu''|apply inv_normal].
+        cbn [length] in Hlen. lia.
+      * rewrite <- app_assoc.
+        rewrite (run_esc_u4 k s1 (c :: c2 :: rest')) by (auto; lia).
+        rewrite IH; [reflexivity| |exact Hu'|apply inv_normal]. lia.
+  - rewrite <- app_assoc.
+    destruct (simple_chunk_run k cfg prev c rest s1
+                (pu cfg (quote_of k) wrap c (if (c =? 10) && (quote_of k =? 96) then - (i + 1) else sl1) (i + 1) rest ++ [quote_of k])
+                Hc Hh Hs1) as [s' [Hs' Hrun]].
+    rewrite Hrun. rewrite IH; [reflexivity| |exact Hu'|exact Hs']. lia.
+Qed.
+
+(* all quoted literals: every UTF-16 sequence, every configuration *)
+Definition all_u16 (u : list Z) : Prop := Forall (fun c => 0 <= c <= 65535) u.
+
+Lemma kind_of_quote k : kind_of (quote_of k) = Some k.
+Proof. destruct k; reflexivity. Qed.
+
+Lemma unquoted_cps_value cfg k nowrap linelen u :
+  all_u16 u ->
+  literal_value_cps (quote_of k :: print_unquoted_cps cfg (quote_of k) nowrap linelen u ++ [quote_of k]) = Some u.
+Proof.
+  intros Hu. unfold literal_value_cps. rewrite kind_of_quote.
+  unfold print_unquoted_cps. apply (pu_run k cfg _ (length u)); [lia|exact Hu|apply inv_normal].
+Qed.
+
+Lemma choose_quote_kind cfg abt u : exists k, choose_quote cfg abt u = quote_of k.
+Proof.
+  unfold choose_quote. destruct (costs _ _ _ _ _) as [[s d] b].
+  destruct (s <? d).
+  - destruct ((b <? s) && _); [exists KTemplate|exists KSingle]; reflexivity.
+  - destruct ((b <? d) && _); [exists KTemplate|exists KDouble]; reflexivity.
+Qed.
+
+Lemma quoted_cps_value cfg abt nowrap linelen u :
+  all_u16 u -> literal_value_cps (print_quoted_cps cfg abt nowrap linelen u) = Some u.
+Proof.
+  intros Hu. unfold print_quoted_cps. destruct (choose_quote_kind cfg abt u) as [k ->].
+  apply unquoted_cps_value. exact Hu.
+Qed.
+
+(* ---------- per-code-point properties of the output ---------- *)
+Definition good (ascii : bool) (nolf : bool) (x : Z) : bool :=
+  scalar x && (if ascii then x <? 128 else true)
+  && negb (x =? 13) && negb (x =? 8232) && negb (x =? 8233) && (if nolf then negb (x =? 10) else true).
+
+Lemma hexc_good a n d : 0 <= d < 16 -> good a n (hexc d) = true.
+Proof.
+  intros H. destruct (hexc_range d H); unfold good, scalar; destruct a, n; lia.
+Qed.
+
+Lemma esc_u4_good a n c : 0 <= c <= 65535 -> forallb (good a n) (esc_u4 c) = true.
+Proof.
+  intros H. unfold esc_u4. cbn [forallb].
+  rewrite !hexc_good by lia. destruct a, n; reflexivity.
+Qed.
+Lemma esc_x2_good a n c : 0 <= c <= 255 -> forallb (good a n) (esc_x2 c) = true.
+Proof.
+  intros H. unfold esc_x2. cbn [forallb].
+  rewrite !hexc_good by lia. destruct a, n; reflexivity.
+Qed.
+Lemma esc_ubrace_good a n r : 65536 <= r <= 1114111 -> forallb (good a n) (esc_ubrace r) = true.
+Proof.
+  intros H. unfold esc_ubrace, hexX. destruct (r <? 1048576) eqn:E; cbn [app forallb];
+    rewrite !hexc_good by lia; destruct a, n; reflexivity.
+Qed.
+
+Lemma simple_chunk_good cfg q prev c rest nolf :
+  0 <= c <= 65535 -> is_high c = false ->
+  (nolf = true -> q <> 96) ->
+  forallb (good (ascii_only cfg) nolf) (simple_chunk cfg q prev c rest) = true.
+Proof.
+  intros Hc Hh Hq. unfold simple_chunk.
+  assert (K : forall l, forallb (fun x => (0 <=? x) && (x <? 128) && negb (x =? 13) && negb (x =? 10)) l = true ->
+                        forallb (good (ascii_only cfg) nolf) l = true).
+  { intros l Hl. rewrite forallb_forall in *. intros x Hx. specialize (Hl x Hx).
+    unfold good, scalar. destruct (ascii_only cfg), nolf; lia. }
+  destruct (c =? 0); [destruct (next_is_digit rest); apply K; reflexivity|].
+  destruct (c =? 7); [apply K; reflexivity|].
+  destruct (c =? 8); [apply K; reflexivity|].
+  destruct (c =? 12); [apply K; reflexivity|].
+  destruct (c =? 10) eqn:E10.
+  { destruct (q =? 96) eqn:Eq; [|apply K; reflexivity].
+    cbn [forallb]. unfold good, scalar. destruct nolf; [exfalso; apply Hq; [reflexivity|lia]|].
+    destruct (ascii_only cfg); reflexivity. }
+  destruct (c =? 13) eqn:E13; [apply K; reflexivity|].
+  destruct (c =? 11); [apply K; reflexivity|].
+  destruct (c =? 27); [apply K; reflexivity|].
+  destruct (c =? 92); [apply K; reflexivity|].
+  destruct (c =? 47); [destruct (_ && _ && _); apply K; reflexivity|].
+  destruct (c =? 39); [destruct (q =? 39); apply K; reflexivity|].
+  destruct (c =? 34); [destruct (q =? 34); apply K; reflexivity|].
+  destruct (c =? 96); [destruct (q =? 96); apply K; reflexivity|].
+  destruct (c =? 36); [destruct ((q =? 96) && _); apply K; reflexivity|].
+  destruct (c =? 8232) eqn:E1; [apply K; reflexivity|].
+  destruct (c =? 8233) eqn:E2; [apply K; reflexivity|].
+  destruct (c =? 65279); [apply K; reflexivity|].
+  destruct (c <=? 126) eqn:E3.
+  { apply K. cbn [forallb]. lia. }
+  destruct (is_low c || (ascii_only cfg && (255 <? c))) eqn:E4; [apply esc_u4_good; lia|].
+  destruct (ascii_only cfg) eqn:E5.
+  { apply esc_x2_good. cbn [andb] in E4. apply orb_false_iff in E4 as [_ E4]. lia. }
+  cbn [forallb]. apply orb_false_iff in E4 as [E4 _].
+  unfold good, scalar. unfold is_high in Hh. unfold is_low in E4. destruct nolf; lia.
+Qed.
+
+Lemma pu_good cfg q wrap nolf :
+  (nolf = true -> q <> 96 /\ wrap = false) ->
+  forall n text prev sl i,
+  (length text <= n)%nat -> all_u16 text ->
+  forallb (good (ascii_only cfg) nolf) (pu cfg q wrap prev sl i text) = true.
+Proof.
+  intros Hn. induction n as [|n IH]; intros text prev sl i Hlen Hu.
+  { destruct text; [reflexivity|cbn in Hlen; lia]. }
+  destruct text as [|c rest]; [reflexivity|].
+  cbn [length] in Hlen. inversion Hu as [|? ? Hc Hu']; subst.
+  cbn [pu]. rewrite forallb_app. apply andb_true_iff. split.
+  { destruct (wrap && _) eqn:Ew; [|reflexivity].
+    cbn [forallb]. unfold good, scalar. destruct nolf.
+    - destruct (Hn eq_refl) as [_ ->]. discriminate.
+    - destruct (ascii_only cfg); reflexivity. }
+  destruct (is_high c) eqn:Hh.
+  - destruct rest as [|c2 rest']; [apply esc_u4_good; lia|].
+    inversion Hu' as [|? ? Hc2 Hu'']; subst.
+    destruct (is_low c2) eqn:Hl.
+    + rewrite forallb_app. apply andb_true_iff. split.
+      * unfold pair_chunk. pose proof (combine_range c c2 Hh Hl) as Hr.
+        destruct (ascii_only cfg) eqn:Ea.
+        -- destruct (uni_esc cfg); [apply esc_ubrace_good; lia|].
+           rewrite forallb_app, !esc_u4_good by lia. reflexivity.
+        -- cbn [forallb]. unfold good, scalar. destruct nolf; lia.
+      * apply IH; [cbn [length] in Hlen; lia|exact Hu''].
+    + rewrite forallb_app, esc_u4_good by lia. apply IH; [lia|exact Hu'].
+  - rewrite forallb_app. apply andb_true_iff. split.
+    + apply simple_chunk_good; [exact Hc|exact Hh|]. intros E. apply Hn. exact E.
+    + apply IH; [lia|exact Hu'].
+Qed.
+
+Lemma good_scalar a n l : forallb (good a n) l = true -> forallb scalar l = true.
+Proof.
+  intros H. rewrite forallb_forall in *. intros x Hx. specialize (H x Hx).
+  unfold good in H. destruct (scalar x); [reflexivity|discriminate].
+Qed.
+
+Lemma quote_good a n k : good a n (quote_of k) = true.
+Proof. destruct k, a, n; reflexivity. Qed.
+
+Lemma print_quoted_cps_good cfg abt nowrap linelen u :
+  all_u16 u -> forallb (good (ascii_only cfg) false) (print_quoted_cps cfg abt nowrap linelen u) = true.
+Proof.
+  intros Hu. unfold print_quoted_cps. destruct (choose_quote_kind cfg abt u) as [k ->].
+  cbn [forallb]. rewrite quote_good. rewrite forallb_app. cbn [forallb]. rewrite quote_good.
+  unfold print_unquoted_cps. rewrite (pu_good cfg _ _ false) with (n := length u); [reflexivity|discriminate|lia|exact Hu].
+Qed.
+
+(* the main theorem at byte level *)
+Lemma quote_roundtrip_all cfg abt nowrap prefix u :
+  all_u16 u -> literal_value (print_quoted cfg abt nowrap prefix u) = Some u.
+Proof.
+  intros Hu. unfold literal_value, print_quoted.
+  rewrite utf8_roundtrip.
+  - apply quoted_cps_value. exact Hu.
+  - eapply good_scalar. apply print_quoted_cps_good. exact Hu.
+Qed.
+
+Lemma unquoted_roundtrip_all cfg k nowrap prefix u :
+  all_u16 u ->
+  literal_value (quote_of k :: print_unquoted cfg (quote_of k) nowrap prefix u ++ [quote_of k]) = Some u.
+Proof.
+  intros Hu. unfold literal_value, print_unquoted.
+  assert (E : quote_of k :: to_bytes (print_unquoted_cps cfg (quote_of k) nowrap (currentLineLength prefix) u) ++ [quote_of k]
+              = to_bytes (quote_of k :: print_unquoted_cps cfg (quote_of k) nowrap (currentLineLength prefix) u ++ [quote_of k])).
+  { unfold to_bytes. cbn [flat_map]. rewrite flat_map_app. cbn [flat_map]. rewrite app_nil_r.
+    destruct k; reflexivity. }
+  rewrite E. rewrite utf8_roundtrip.
+  - apply unquoted_cps_value. exact Hu.
+  - cbn [forallb]. replace (scalar (quote_of k)) with true by (destruct k; reflexivity).
+    rewrite forallb_app. cbn [forallb]. replace (scalar (quote_of k)) with true by (destruct k; reflexivity).
+    rewrite (good_scalar (ascii_only cfg) false); [reflexivity|].
+    unfold print_unquoted_cps. apply pu_good with (n := length u); [discriminate|lia|exact Hu].
+Qed.
+
+Lemma to_bytes_ascii l :
+  forallb (fun x => (0 <=? x) && (x <? 128)) l = true -> to_bytes l = l.
+Proof.
+  induction l as [|x r IH]; intros H; [reflexivity|].
+  cbn [forallb] in H. apply andb_true_iff in H as [H1 H2].
+  unfold to_bytes. cbn [flat_map]. fold (to_bytes r). rewrite IH by exact H2.
+  unfold EncodeRune, encodeWTF8Rune, is_surrogate, MaxRune.
+  replace ((x <? 0) || (1114111 <? x) || ((55296 <=? x) && (x <=? 57343))) with false by lia.
+  replace (x <? 0) with false by lia. replace (x <=? 127) with true by lia. reflexivity.
+Qed.
+
+Lemma quote_ascii_all cfg abt nowrap prefix u :
+  ascii_only cfg = true -> all_u16 u ->
+  Forall (fun b => 0 <= b < 128) (print_quoted cfg abt nowrap prefix u).
+Proof.
+  intros Ha Hu. unfold print_quoted.
+  pose proof (print_quoted_cps_good cfg abt nowrap (currentLineLength prefix) u Hu) as G.
+  rewrite Ha in G.
+  assert (A : forallb (fun x => (0 <=? x) && (x <? 128)) (print_quoted_cps cfg abt nowrap (currentLineLength prefix) u) = true).
+  { rewrite forallb_forall in *. intros x Hx. specialize (G x Hx). unfold good, scalar in G. lia. }
+  rewrite to_bytes_ascii by exact A.
+  rewrite forallb_forall in A. apply Forall_forall. intros x Hx. specialize (A x Hx). lia.
+Qed.
+
+(* no raw CR / LS / PS ever; no raw LF in '..' and ".." literals unless it
+   is the escaped newline of line wrapping *)
+Definition no_lt (nolf : bool) (x : Z) : Prop :=
+  x <> 13 /\ x <> 8232 /\ x <> 8233 /\ (nolf = true -> x <> 10).
+
+Lemma quote_no_raw_lt_all cfg k nowrap prefix u :
+  all_u16 u ->
+  let nolf := negb (quote_of k =? 96) && negb ((0 <? line_limit cfg) && negb nowrap) in
+  exists cps, utf8_decode (print_unquoted cfg (quote_of k) nowrap prefix u) = Some cps /\
+              Forall (no_lt nolf) cps.
+Proof.
+  intros Hu nolf. exists (print_unquoted_cps cfg (quote_of k) nowrap (currentLineLength prefix) u).
+  assert (G : forallb (good (ascii_only cfg) nolf)
+                (print_unquoted_cps cfg (quote_of k) nowrap (currentLineLength prefix) u) = true).
+  { unfold print_unquoted_cps. apply pu_good with (n := length u); [|lia|exact Hu].
+    unfold nolf. intros E. apply andb_true_iff in E as [E1 E2]. split; [lia|].
+    destruct ((0 <? line_limit cfg) && negb nowrap); [discriminate|reflexivity]. }
+  split.
+  - unfold print_unquoted. apply utf8_roundtrip. eapply good_scalar. exact G.
+  - rewrite forallb_forall in G. apply Forall_forall. intros x Hx. specialize (G x Hx).
+    unfold good in G. unfold no_lt. destruct nolf; repeat split; try lia; intros; try lia.
+Qed.
